@@ -41,7 +41,6 @@ pub const SITE_TABLE: &[(u64, &str, &str, &str)] = &[
     (910, "src/ir/wrappers.rs", "indirect_namemap_parser2encoder", "called `Result::unwrap()` on an `Err` value"),
     (911, "src/ir/wrappers.rs", "add_to_namemap", "called `Result::unwrap()` on an `Err` value"),
     (912, "src/ir/component.rs", "parse_comp", "range end index"),
-    (913, "src/ir/module/mod.rs", "parse_internal", "attempt to add with overflow"),
 ];
 
 static LAST_PANIC: Mutex<Option<(String, u32, String)>> = Mutex::new(None);
@@ -954,16 +953,12 @@ fn abs_module(parser: wp::Parser, wasm: &[u8]) -> Abs {
             CodeSectionStart { count, .. } => evs.push(format!("MCodeStart {}", count)),
             CodeSectionEntry(body) => {
                 let mut locals_ok = true;
-                let mut sum: u64 = 0;
-                let mut ovf = false;
                 match body.get_locals_reader() {
                     Err(_) => locals_ok = false,
                     Ok(lr) => {
-                        let mut groups = vec![];
-                        for l in lr.into_iter() { match l { Ok((c, _)) => groups.push(c), Err(_) => { locals_ok = false; break; } } }
-                        if locals_ok {
-                            for c in groups { sum += c as u64; if sum > u32::MAX as u64 { ovf = true; sum &= 0xffff_ffff; } }
-                        }
+                        // (LocalsReader::read itself fails with "too many locals" when the running total passes u32::MAX,
+                        //  so wirm's `num_locals += count` cannot overflow)
+                        for l in lr.into_iter() { if l.is_err() { locals_ok = false; break; } }
                     }
                 }
                 let mut ops_ok = true;
@@ -981,7 +976,7 @@ fn abs_module(parser: wp::Parser, wasm: &[u8]) -> Abs {
                         },
                     }
                 }
-                evs.push(format!("MCodeEntry {} {} {} {} {}", b(locals_ok), b(ovf), b(ops_ok), b(last_end), b(nzmem)));
+                evs.push(format!("MCodeEntry {} {} {} {}", b(locals_ok), b(ops_ok), b(last_end), b(nzmem)));
                 if !locals_ok || !ops_ok { break; }
             }
             TagSection(rd) => {
@@ -1131,7 +1126,7 @@ fn witnesses() -> Vec<(&'static str, Vec<u8>)> {
         ("D09j valid: local-name map cut short", m(vec![ty.clone(), custom("name", &[2, 3, 2, 0, 0])])),
         ("D09k component: component-name core-func map with a name that is not UTF-8", assemble(&COMP_HDR, &vec![custom("component-name", &[1, 5, 0, 0, 1, 0, 1, 0xff].to_vec())])),
         ("D09l truncated component: core module section longer than the file", { let mut v = COMP_HDR.to_vec(); v.extend_from_slice(&[1, 20]); v.extend_from_slice(&MOD_HDR); v }),
-        ("D09m malformed (builds with overflow checks only): local counts that sum past 2^32", m(vec![ty.clone(), fun.clone(), (10, vec![1, 14, 2, 0xff, 0xff, 0xff, 0xff, 0x0f, 0x7f, 0xff, 0xff, 0xff, 0xff, 0x0f, 0x7f, 0x0b])])),
+        ("guarded: local counts that sum past 2^32 are a reader error (too many locals)", m(vec![ty.clone(), fun.clone(), (10, vec![1, 14, 2, 0xff, 0xff, 0xff, 0xff, 0x0f, 0x7f, 0xff, 0xff, 0xff, 0xff, 0x0f, 0x7f, 0x0b])])),
         ("guarded: ref.null of a concrete type index >= 2^20 in a global initialiser is a reader error", m(vec![(6, vec![1, 0x70, 0, 0xd0, 0xff, 0xff, 0xff, 0x00, 0x0b])])),
         ("guarded: global initialiser without `end` is a reader error", m(vec![(6, vec![1, 0x7f, 0, 0x41, 1])])),
         ("guarded: global initialiser `block end end` is a reader error", m(vec![(6, vec![1, 0x7f, 0, 0x02, 0x40, 0x0b, 0x0b])])),
@@ -1183,17 +1178,10 @@ fn validates(bytes: &[u8]) -> bool {
     catch_unwind(AssertUnwindSafe(|| wp::Validator::new_with_features(wp::WasmFeatures::all()).validate_all(bytes).is_ok())).unwrap_or(false)
 }
 
-/// does this build of wirm check `num_locals += count` for overflow?
-fn probe_overflow_checks() -> bool {
-    let w = witnesses().into_iter().find(|w| w.0.starts_with("D09m")).unwrap().1;
-    matches!(observe(|| wirm::Module::parse(&w, false)), Obs::Panic(..))
-}
-
 fn main() {
     let args = parse_args();
     install_hook();
     let explore = args.flags.iter().any(|f| f == "--explore");
-    let ovf = probe_overflow_checks();
     let wit = witnesses();
     let mut hist: BTreeMap<String, (u64, String)> = BTreeMap::new();
     let mut n_valid_panic = 0u64;
@@ -1236,13 +1224,12 @@ fn main() {
             }
         }
         if valid && (matches!(o_f, Obs::Panic(..)) || matches!(o_c, Obs::Panic(..))) { n_valid_panic += 1; }
-        let coq = format!("mkPCase (mkPInput {} [{}] [{}]) {} {} {}", b(ovf), am.evs.join("; "), ac.join("; "), o_f.coq(), o_t.coq(), o_c.coq());
+        let coq = format!("mkPCase (mkPInput [{}] [{}]) {} {} {}", am.evs.join("; "), ac.join("; "), o_f.coq(), o_t.coq(), o_c.coq());
         let d = format!("{}| {} bytes {} valid={} => Module::parse(false)={} Module::parse(true)={} Component::parse={}", desc, bytes.len(), hex(&bytes), valid, o_f.show(), o_t.show(), o_c.show());
         let nontrivial = past && bytes.len() > 8;
         Case { seed, idx, coq, desc: d, nontrivial, tags }
     });
     if explore {
-        eprintln!("overflow checks in this build of wirm: {}", ovf);
         for (k, (n, w)) in &hist { eprintln!("{:6}  {}\n        {}", n, k, w); }
         eprintln!("valid inputs that panic: {}", n_valid_panic);
     }
